@@ -5,11 +5,17 @@ package reader
 // the reference mapping (collection-level entry, else whole-database entry, else unchanged).
 
 import (
+	"context"
 	"fmt"
+	"sort"
 	"strings"
 	"testing"
+	"time"
+
+	"github.com/milvus-io/milvus-proto/go-api/v2/milvuspb"
 
 	"github.com/zilliztech/milvus-cdc/core/verifkit/ev"
+	"github.com/zilliztech/milvus-cdc/core/verifkit/fakemilvus"
 )
 
 func c09tRef(entries [][2]string, db, coll string) (string, string) {
@@ -93,6 +99,115 @@ func TestVerifC09Target(t *testing.T) {
 					res.Outcome(fmt.Sprintf("%s.%s", wd, wc))
 					if name == "exact+whole" {
 						res.Sample(map[string]interface{}{"db": db, "coll": coll, "entries": perm, "mapped": wd + "." + wc})
+					}
+				}
+			}
+		}
+	}
+}
+
+// ------------------------------------------------------------------------------------------------
+// the calls themselves: the real TargetClient + Milvus SDK client against an in-process gRPC Milvus. Every RPC of a
+// collection / partition lookup must go to mapping(source) - applied exactly once, also when the table is chained
+// (the target of one entry is the source of another, as happens when several tasks share one downstream).
+
+var c09tServer *fakemilvus.Server
+
+func TestVerifC09TargetCalls(t *testing.T) {
+	res := ev.New("C09", "targetcalls")
+	defer res.Write()
+	res.Rule = "the real TargetClient.GetCollectionInfo / GetPartitionInfo + SDK client against an in-process gRPC Milvus: source db {default, \"\", other} x collection {a, c} x mapping shape (the shapes of the target part plus chained collection entries, chained whole-database entries and a collection entry chained onto a whole-database entry) x every insertion order; every RPC on the wire (DescribeCollection, ShowPartitions) must be routed to and name mapping(source), the mapping applied exactly once"
+	if c09tServer == nil {
+		s, err := fakemilvus.Start()
+		if err != nil {
+			t.Fatal(err)
+		}
+		c09tServer = s
+	}
+	srv := c09tServer
+	n := 0
+	for _, db := range []string{"default", "", "other"} {
+		s := db
+		if s == "" {
+			s = "default"
+		}
+		for _, coll := range []string{"a", "c"} {
+			shapes := map[string][][2]string{
+				"none": nil, "exact": {{s + ".a", "X.b"}}, "wholedb": {{s + ".*", "Z.*"}},
+				"exact+whole": {{s + ".a", "X.b"}, {s + ".*", "Z.*"}},
+				"chained-exact": {{s + ".a", "X.b"}, {"X.b", "Y.c"}},
+				"chained-whole": {{s + ".*", "X.*"}, {"X.*", "W.*"}},
+				"whole-then-exact": {{s + ".*", "X.*"}, {"X.a", "Y.q"}, {"X.c", "Y.r"}},
+				"exact-then-whole": {{s + ".a", "X.b"}, {"X.*", "W.*"}},
+			}
+			var names []string
+			for k := range shapes {
+				names = append(names, k)
+			}
+			sort.Strings(names)
+			for _, name := range names {
+				entries := shapes[name]
+				perms := c09tPerms(entries)
+				if len(entries) > 2 {
+					perms = perms[:2]
+				}
+				for _, perm := range perms {
+					n++
+					if !ev.Mine(n) {
+						continue
+					}
+					wd, wc := c09tRef(entries, db, coll)
+					tc := &TargetClient{config: TargetConfig{URI: srv.Addr}}
+					for _, e := range perm {
+						tc.UpdateNameMappings(map[string]string{e[0]: e[1]})
+					}
+					for _, entry := range []string{"GetCollectionInfo", "GetPartitionInfo"} {
+						srv.Calls()
+						ctx, cancel := context.WithTimeout(context.Background(), 10*time.Second)
+						var err error
+						if entry == "GetCollectionInfo" {
+							_, err = tc.GetCollectionInfo(ctx, coll, db)
+						} else {
+							_, err = tc.GetPartitionInfo(ctx, coll, db)
+						}
+						cancel()
+						calls := srv.Calls()
+						res.Evaluations++
+						res.States++
+						res.Transitions++
+						res.Traces++
+						if wd != s || wc != coll {
+							res.Nontrivial++
+						}
+						rp := map[string]interface{}{"db": db, "coll": coll, "entries": perm, "entry": entry}
+						if err != nil {
+							res.Violate("C09/targetcalls/failed/"+name, fmt.Sprintf("%s(%q,%q) with %v failed: %v", entry, coll, db, perm, err), rp)
+							continue
+						}
+						var seq []string
+						for _, c := range calls {
+							gotDB := c.DB
+							if gotDB == "" {
+								gotDB = "default"
+							}
+							gotColl := ""
+							switch q := c.Req.(type) {
+							case *milvuspb.DescribeCollectionRequest:
+								gotColl = q.CollectionName
+							case *milvuspb.ShowPartitionsRequest:
+								gotColl = q.CollectionName
+							default:
+								continue
+							}
+							seq = append(seq, fmt.Sprintf("%s@%s.%s", c.Method, gotDB, gotColl))
+							if gotDB != wd || gotColl != wc {
+								res.Violate("C09/targetcalls/route/"+name, fmt.Sprintf("%s(%q,%q) with %v: RPC %s went to %s.%s, the mapping gives %s.%s", entry, coll, db, perm, c.Method, gotDB, gotColl, wd, wc), rp)
+							}
+						}
+						if len(seq) == 0 {
+							res.Violate("C09/targetcalls/no-call/"+name, fmt.Sprintf("%s(%q,%q): no lookup RPC reached the downstream", entry, coll, db), rp)
+						}
+						res.Outcome(entry + ": " + strings.Join(seq, ","))
 					}
 				}
 			}
